@@ -116,8 +116,8 @@ def _check_row(ctx, get_module, row, cfg, rule):
         idx_keys.add(k)
         if o[0] == "i":
             d = f.insts[o[1]]
-            if d.op == "phi":
-                for x in d.ops:
+            if d.op == "phi" or (d.op == "select" and d.type != "i1"):
+                for x in (d.ops if d.op == "phi" else d.ops[1:]):
                     x = _root(f, x)
                     if x[0] in ("i", "a"):
                         work.append(x)
